@@ -28,7 +28,7 @@ def build(V, cfg):
     rec = asyncsym.Recorder()
     ph = V.grid("phase", lo=0, hi=1)
     node = asyncsym.mk_node(V, rec, "n", rate, phase=ph, advance=cfg["advance"], scheduling=sched,
-                            record_setting=cfg.get("record_setting"), max_records=cfg.get("max_records", 20000), init_seq=cfg.get("init_seq", 0))
+                            record_setting=cfg.get("record_setting"), max_records=cfg.get("max_records", 20000), init_seq=cfg.get("init_seq", 0), gs_eps=cfg.get("gs_eps"))
     srcs, conns = [], []
     for j in range(nb + nnb):
         s = asyncsym.mk_node(V, rec, f"s{j}", 10)
